@@ -303,6 +303,21 @@ def _accepts(spec, make_value):
     return False, e
 
 
+def _plain_copy(v):
+  """A spec-free copy of an applied value (typed symbolic containers become plain ones)."""
+  if isinstance(v, pg.Dict) or (isinstance(v, dict) and not isinstance(v, pg.Object)):
+    items = v.sym_items() if isinstance(v, pg.Dict) else v.items()
+    return {k: _plain_copy(x) for k, x in items if not (pg.MISSING_VALUE == x)}
+  if isinstance(v, (pg.List, list)) and not isinstance(v, tuple):
+    items = v.sym_values() if isinstance(v, pg.List) else v
+    return [_plain_copy(x) for x in items]
+  if isinstance(v, tuple):
+    return tuple(_plain_copy(x) for x in v)
+  if isinstance(v, pg.Object):
+    return v.clone(deep=True)
+  return copy.deepcopy(v)
+
+
 def _kind_sig(d):
   s = d['t']
   for m in ('noneable', 'frozen'):
@@ -571,8 +586,10 @@ def execute(case):
     for (mk, tag), ok_a, ok_b in zip(cands, acc_a, acc_b):
       if ok_b and not ok_a:
         cause = ','.join(sorted(_why_narrower(da, db))) or 'other'
-        return res.violate('a=%r declares itself compatible with b=%r, but b accepts %r and a rejects it' % (
+        # (recorded, not returned: several recorded findings live here and must not hide the laws below)
+        res.violate('a=%r declares itself compatible with b=%r, but b accepts %r and a rejects it' % (
             sa, sb, mk()), law='compatible-but-narrower', cause=cause, **sig)
+        break
   if before[1] != repr(sa) or not (before[0] == sa):
     return res.violate('apply changed the spec: %s -> %r' % (before[1], sa), law='apply-mutates-spec', **sig)
   # (2) default is acceptable
@@ -607,10 +624,12 @@ def execute(case):
         continue
       if shared_only:
         continue    # field-wise comparison is done on the nested specs by construction of the pair
-      ok_a, ra = _accepts(sa, mk)
+      # The value the extended spec ends up with (defaults it adds for fields the base requires are filled in:
+      # giving a default to an inherited required field is ordinary schema inheritance) must be acceptable to the base.
+      ok_a, ra = _accepts(sa, lambda r=re_: _plain_copy(r))
       if ok_a is False:
-        return res.violate('b=%r extended base a=%r into %r, which accepts %r although the base rejects it (%r)' % (
-            sb, sa, ext, mk(), ra), law='extension-wider-than-base', **sig)
+        return res.violate('b=%r extended base a=%r into %r, which accepts %r (as %r) although the base rejects it (%r)' % (
+            sb, sa, ext, mk(), re_, ra), law='extension-wider-than-base', **sig)
     if ext.default != pg.MISSING_VALUE:
       try:
         ext.apply(copy.deepcopy(ext.default), allow_partial=True)
